@@ -46,7 +46,11 @@ Proof.
   intros Hm Hc Hst Hg Hcmd. destruct handler_constants as (C4 & CR & CN & C0 & _ & _ & _ & Hl & Ht).
   unfold handle_response. rewrite Hm. cbn [negb]. rewrite Hc, CR, CN. change (2147483652 =? 2147483648) with false. cbv iota.
   rewrite Hl.
-  pose proof (get_pop_frame (h_corr s) r) as [_ Hf]. rewrite Hg in Hf. destruct Hf as [Hf1 Hf2].
+  pose proof (get_pop_frame (h_corr s) r) as [_ Hf]. rewrite Hg in Hf.
+  assert (answers r (e_msg e) = true) as Ha.
+  { unfold answers. rewrite Hcmd, Hc. apply orb_true_iff. right.
+    assert (lookup SmppCommand_SUBMIT_SM command_response_map = Some SmppCommand_SUBMIT_SM_RESP) as -> by reflexivity. apply Z.eqb_refl. }
+  rewrite Ha in Hf. destruct Hf as [Hf1 Hf2].
   destruct (get_pop (h_corr s) r) as [c1 oe]. cbn [fst snd] in Hf1, Hf2. subst oe.
   rewrite Hcmd, C4. change (4 =? 4) with true. cbn [negb]. cbv iota.
   change ((2147483652 =? 2147483652) || (2147483652 =? 2147483648)) with true. cbn [andb].
@@ -473,7 +477,9 @@ Section Group.
     set (ph' := upd ph i PSent).
     unfold handle_response, ok_resp. cbn [rs_cmd rs_seq rs_status rs_uid]. rewrite Hm. cbn [negb]. rewrite CN.
     change (2147483652 =? 2147483648) with false. cbv iota. rewrite Hlk.
-    unfold get_pop. cbn [rs_seq rs_cmd rs_status]. rewrite Hge, Hem, seg_is_submit.
+    unfold get_pop. cbn [rs_seq rs_cmd rs_status]. rewrite Hge, Hem.
+    assert (answers {| rs_uid := u; rs_cmd := 2147483652; rs_seq := sq i; rs_status := 0 |} (seg i) = true) as -> by reflexivity.
+    cbn [negb]. rewrite ?Hem. rewrite seg_is_submit.
     cbn [with_store c_seg c_stat seg sm_seq]. rewrite Hbi, Hcell. rewrite CN, C0.
     change (2147483652 =? 2147483648) with false. change (0 =? 0) with true. cbv iota.
     set (s1 := set_status cell (Z.of_nat i + 1) STATUS_SENT).
@@ -482,7 +488,7 @@ Section Group.
     { assert (ss_status s1 = status_of ph') as E1.
       { unfold s1, set_status. cbn [ss_status]. rewrite Hst. change STATUS_SENT with (code PSent). apply (status_set ph i PSent Hi). }
       unfold cell'. destruct (ss_last_resp s1); cbn [set_last_resp ss_status ss_last_rcpt]; split; try exact E1; unfold s1; cbn; exact Hlr. }
-    cbn [sm_cmd seg]. rewrite C4. change (4 =? 4) with true. cbn [negb]. cbv iota.
+    rewrite ?Hem. cbn [sm_cmd seg]. rewrite C4. change (4 =? 4) with true. cbn [negb]. cbv iota.
     change ((2147483652 =? SmppCommand_SUBMIT_SM_RESP) || (2147483652 =? 2147483648)) with ((2147483652 =? SmppCommand_SUBMIT_SM_RESP) || false).
     rewrite CR. change ((2147483652 =? 2147483652) || false) with true. cbn [andb]. rewrite Ht. cbv iota.
     change (2147483652 =? 2147483652) with true. cbn [andb]. cbv iota.
